@@ -332,7 +332,7 @@ class J1939_21:
             if num_packages == 0:
                 # SAE J1939/21
                 # receiver requests a pause
-                self._snd_buffer[buffer_hash]['deadline'] = time.time() + self.Timeout.Th
+                self._snd_buffer[buffer_hash]['deadline'] = time.time() + self.Timeout.T4
                 self.__job_thread_wakeup()
                 return
 
